@@ -38,6 +38,7 @@ ALPHABETS = {
     "small": ["cb", "SL1", "EL1", "WD"],
     "small_fl": ["SF1", "EF1", "BR", "jup"],
     "fl_accts": ["SF1", "EF1", "EF21", "EF12", "EF2", "BR"],
+    "delev": ["cb", "SD1", "ED1", "WD", "RP", "IR", "BR", "krr", "jup", "EL1"],
 }
 VAL_CFGS = [
     "1 SL EL 4 2 KRR 2 KRO 1 IR 3 DUS 7 SL EL IR WD RP KW DW",
